@@ -61,7 +61,11 @@ def spell_like(d, rng):
             c['imptxt'] = ('imp:n,p=%d' % c['imp']) if impstyle == 'list' else ('imp:n=%d imp:p=%d' % (c['imp'], c['imp']))
     # transformations (pure translations) with three entries, or - every other deck - the base cards in the
     # starred 12-entry form (identity in degrees) and the BUT overrides with the full matrix of cosines
-    trstyle = rng.choice(['3', 'full'])
+    # or - 'starbut' - the BUT overrides starred as well (*TRCL=(.. angles ..), *FILL=n (.. angles ..))
+    trstyle = rng.choice(['3', 'full', 'starbut'])
+    STAR_ID = '0 90 90 90 0 90 90 90 0'
+    butorder = rng.random() < 0.5
+    d['butstar'] = trstyle == 'starbut'
     for c in d['cells']:
         c['trclspell'] = '3' if trstyle == '3' else 'star'
         c['ftrspell'] = '3' if trstyle == '3' else 'star'
@@ -80,12 +84,19 @@ def spell_like(d, rng):
                     toks.append(rng.choice(['imp:n,p=%d' % c['imp'], 'imp:n=%d imp:p=%d' % (c['imp'], c['imp']),
                                             'imp:p=%d imp:n=%d' % (c['imp'], c['imp'])]))
             elif key == 'fill':
-                toks.append('fill=%d' % c['fill'] + ((' (0 1 1)' if trstyle == '3' else ' (0 1 1 1 0 0 0 1 0 0 0 1)')
-                                                     if c['hasftr'] else ''))
+                if trstyle == 'starbut' and c['hasftr']:
+                    toks.append('*fill=%d (0 1 1 %s)' % (c['fill'], STAR_ID))
+                else:
+                    toks.append('fill=%d' % c['fill'] + ((' (0 1 1)' if trstyle == '3' else ' (0 1 1 1 0 0 0 1 0 0 0 1)')
+                                                         if c['hasftr'] else ''))
             elif key == 'u':
                 toks.append('u=%d' % c['u'])
+            elif trstyle == 'starbut':
+                toks.append(('*trcl=(%d %d %d ' + STAR_ID + ')') % tuple(c['trcl']['o']))
             else:
                 toks.append(('trcl=(%d %d %d)' if trstyle == '3' else 'trcl=(%d %d %d 1 0 0 0 1 0 0 0 1)') % tuple(c['trcl']['o']))
+        if butorder:
+            rng.shuffle(toks)       # the keywords of a BUT list may come in any order
         c['butkeys'] = sorted(c['but'])
         c['but'] = toks
     d['predecorated'] = True
@@ -101,9 +112,9 @@ def explicit(deck):
     for c in deck['cells']:
         c2 = dict(c, like=0)
         if c.get('like'):
-            if 'trcl' in c.get('butkeys', []) and c['trclspell'] == 'star':
+            if 'trcl' in c.get('butkeys', []) and c['trclspell'] == 'star' and not deck.get('butstar'):
                 c2['trclspell'] = '12'
-            if 'fill' in c.get('butkeys', []) and c['ftrspell'] == 'star':
+            if 'fill' in c.get('butkeys', []) and c['ftrspell'] == 'star' and not deck.get('butstar'):
                 c2['ftrspell'] = '12'
         cells.append(c2)
     d['cells'] = cells
